@@ -1070,12 +1070,24 @@ std::string Generator::GeneratorImpl::generateOperatorCode(const std::string &op
             || isLogicalOperator(astRightChild)
             || isTimesOperator(astRightChild)
             || isDivideOperator(astRightChild)
+            || isLogarithmWithBase(astRightChild)
             || isPiecewiseStatement(astRightChild)) {
             astRightChildCode = "(" + astRightChildCode + ")";
         } else if (isPlusOperator(astRightChild)
                    || isMinusOperator(astRightChild)) {
             if (astRightChild->rightChild() != nullptr) {
                 astRightChildCode = "(" + astRightChildCode + ")";
+            } else if (isMinusOperator(astRightChild)) {
+                // Note: the negation of a product or a quotient is generated
+                //       without parentheses (e.g., -a*b).
+
+                auto astRightChildLeftChild = astRightChild->leftChild();
+
+                if (isTimesOperator(astRightChildLeftChild)
+                    || isDivideOperator(astRightChildLeftChild)
+                    || isLogarithmWithBase(astRightChildLeftChild)) {
+                    astRightChildCode = "(" + astRightChildCode + ")";
+                }
             }
         }
     } else if (isAndOperator(ast)) {
